@@ -6,7 +6,7 @@ from .shape_common import run_jobs, server_chains, chain_name
 SRC_NAME = {'T': 'deadline expiry', 'K': 'cancellation queue', 'R': 'transport read'}
 
 
-def coverage(ctx, tag, sources):
+def coverage(ctx, tag, sources, blocked_too=True):
     F, R = ctx.F, ctx.run
     rp = F.trait_method('Stream', 'server::Requests', 'poll_next')
     chains = server_chains(F)
@@ -28,8 +28,9 @@ def coverage(ctx, tag, sources):
             blocked = sorted({a for a in pend if a[0] not in ('Pending', 'Closed') and a[1]}, key=repr)
             other = sorted({a for a in pend if a[0] not in ('Pending', 'Closed') and not a[1]}, key=repr)
             entry = 'Requests<%s>::poll_next' % chain_name(ch)
-            R.ob(tag, (entry, 'source ' + SRC_NAME[src], 'not registered while the response sink is not ready'), not blocked,
-                 'at every Pending exit taken while a sink poll is Pending, %s is registered (polled last with Pending) or exhausted' % SRC_NAME[src], [rp.loc(rp.d)],
-                 'exit states (last outcome, w_wait, drain): %s' % blocked)
+            if blocked_too:
+              R.ob(tag, (entry, 'source ' + SRC_NAME[src], 'not registered while the response sink is not ready'), not blocked,
+                   'at every Pending exit taken while a sink poll is Pending, %s is registered (polled last with Pending) or exhausted' % SRC_NAME[src], [rp.loc(rp.d)],
+                   'exit states (last outcome, w_wait, drain): %s' % blocked)
             R.ob(tag, (entry, 'source ' + SRC_NAME[src], 'not registered on an idle return'), not other,
                  'at every other Pending exit, %s is registered or exhausted' % SRC_NAME[src], [rp.loc(rp.d)], 'exit states: %s' % other)
